@@ -7,6 +7,7 @@ import (
 	"encoding/json"
 	"fmt"
 	"github.com/xuperchain/xupercore/kernel/engines/xuperos"
+	"github.com/xuperchain/xupercore/kernel/engines/xuperos/miner"
 	"path/filepath"
 	"sync"
 
@@ -118,8 +119,9 @@ type Node struct {
 
 	RecoverWG *sync.WaitGroup // see WaitQuiescent
 
-	chainMu sync.Mutex
-	chain   *xuperos.Chain
+	chainMu   sync.Mutex
+	chain     *xuperos.Chain
+	recvMiner *miner.Miner
 }
 
 func envFor(w *memkv.World) *xconf.EnvConf {
